@@ -3,6 +3,7 @@
 # Runs the registered checks against a seeded change WITHOUT touching /repo: the patch is applied to a scratch worktree of
 # /repo (removed afterwards), the checks build against it (VERIF_REPO) and write their evidence to a scratch directory
 # (VERIF_EVIDENCE), so /verif/evidence only ever holds runs against /repo itself.
+root=$(cd "$(dirname "$(readlink -f "$0")")/.." && pwd)
 patch=$(readlink -f "$1"); tier=$2; shift 2
 wt=$(mktemp -d /tmp/seedwt-XXXXXX); ev=$(mktemp -d /tmp/seedev-XXXXXX)
 git -C /repo worktree add --detach "$wt" HEAD >/dev/null 2>&1 || { echo "cannot create worktree"; exit 2; }
@@ -10,5 +11,5 @@ trap 'git -C /repo worktree remove --force "$wt" >/dev/null 2>&1; rm -rf "$wt" "
 ( cd "$wt" && { git apply "$patch" 2>/dev/null || git apply -3 "$patch"; } ) || { echo "patch does not apply"; exit 2; }
 for p in "$@"; do
   echo "=== $p ($tier) with $(basename $(dirname $patch))/$(basename $patch)"
-  (cd /verif && VERIF_REPO="$wt" VERIF_EVIDENCE="$ev" python3 tools/check.py $p --tier $tier 2>&1 | tail -12; echo "exit=${PIPESTATUS[0]}")
+  (cd "$root" && VERIF_REPO="$wt" VERIF_EVIDENCE="$ev" python3 tools/check.py $p --tier $tier 2>&1 | tail -12; echo "exit=${PIPESTATUS[0]}")
 done
